@@ -85,8 +85,21 @@ def write_nwchem(basis, preamble="header", sep="comment", end=True, lower_letter
     return "".join(out)
 
 
-def write_gbs(basis, preamble="header", sep="comment", end=True, lower_letters=False):
-    """Generalized columns are written as consecutive shells sharing their exponents."""
+def write_gbs(basis, preamble="header", sep="comment", end=True, lower_letters=False, interior="none"):
+    """Generalized columns are written as consecutive shells sharing their exponents.
+    interior: 'none' | 'comment' | 'blank' - a '!' comment / blank line after the first and before the last
+    primitive row of every shell."""
+    def rows_(lines):
+        if interior == "none" or len(lines) < 1:
+            return lines
+        extra = "! interior comment\n" if interior == "comment" else "\n"
+        out_ = []
+        for k, ln in enumerate(lines):
+            if k in (1, len(lines) - 1) and k > 0:
+                out_.append(extra)
+            out_.append(ln)
+        return out_
+
     out = [_preamble(preamble, "!", "****\n")]
     for n, (elem, shells) in enumerate(basis):
         out.append("%s     0\n" % elem)
@@ -94,13 +107,11 @@ def write_gbs(basis, preamble="header", sep="comment", end=True, lower_letters=F
             lt = letters.lower() if lower_letters else letters
             if len(letters) > 1:
                 out.append("%s   %d   1.00\n" % (lt, len(exps)))
-                for e, r in zip(exps, rows):
-                    out.append("      " + e + "".join("      " + c for c in r) + "\n")
+                out.extend(rows_(["      " + e + "".join("      " + c for c in r) + "\n" for e, r in zip(exps, rows)]))
             else:
                 for c in range(len(rows[0])):
                     out.append("%s   %d   1.00\n" % (lt, len(exps)))
-                    for e, r in zip(exps, rows):
-                        out.append("      " + e + "      " + r[c] + "\n")
+                    out.extend(rows_(["      " + e + "      " + r[c] + "\n" for e, r in zip(exps, rows)]))
         out.append("****\n")
         if sep == "blank" and n < len(basis) - 1:
             out.append("\n")
